@@ -9,6 +9,8 @@ from contracts import suggest
 
 
 def main(tier):
+    from pyvc import engine as _E
+    _E.SECOND_SOLVER = (tier == 'thorough')
     chk = report.Check('C02', tier, level='proof',
                        technique='contract-based deductive verification: loop invariants + postconditions of the real SuggestTrials, z3')
     for t in ('pyvc VC generator and its Python/protobuf models (DESIGN 2, 4)', 'z3 5.1.0',
